@@ -344,6 +344,12 @@ func genC12Inert(t *rapid.T) c12Case {
 		}
 		n = len(c.Rules)
 	}
+	shortLast := chance(t, "short-rule-last", 3)
+	if shortLast {
+		// the shortest rules there are, as the last line
+		c.Rules = append(c.Rules, pick(t, "short", []string{"ad^", "nl", "a.b", "ab$ctag=x", "@@a$ctag=x"}))
+		n = len(c.Rules)
+	}
 	k := rapid.IntRange(0, 10).Draw(t, "nnoise")
 	for i := 0; i < k; i++ {
 		if chance(t, "long-noise", 6) {
@@ -364,6 +370,13 @@ func genC12Inert(t *rapid.T) c12Case {
 			c.Reqs = append(c.Reqs, genQNear(t, models[rapid.IntRange(0, len(models)-1).Draw(t, "for")]))
 		} else {
 			c.Reqs = append(c.Reqs, genQ(t, nil))
+		}
+	}
+	if shortLast {
+		c.Reqs = append(c.Reqs, Q{URL: "http://example.org/ad/ab?a", Typ: "script", Tags: []string{"x"}}, Q{Host: true, Hostname: "nl"}, Q{Host: true, Hostname: "a.b"})
+		if chance(t, "noise-after-last", 2) {
+			c.Noise = append(c.Noise, pick(t, "tail-noise", []string{"! end", "", "# end"}))
+			c.Pos = append(c.Pos, n)
 		}
 	}
 	if chance(t, "odd-url-req", 3) {
